@@ -647,6 +647,17 @@ func (env *Env) call(n *ast.CallExpr) (Val, error) {
 		h := smtName("fn." + name)
 		fx.c.declare(h, "Int")
 		return specVal(h), nil
+	case "mkiface":
+		// mkiface(typ, payload): the interface value with that dynamic type id and payload (for ghosts that store both)
+		a, err := arg(0)
+		if err != nil {
+			return Val{}, err
+		}
+		b, err := arg(1)
+		if err != nil {
+			return Val{}, err
+		}
+		return Val{T: types.NewInterfaceType(nil, nil), L: []string{env.idxTerm(a), env.idxTerm(b)}}, nil
 	case "iterseen":
 		// iterseen(k): has the innermost enclosing map iteration already produced key k?
 		k, err := arg(0)
@@ -752,7 +763,11 @@ func (env *Env) call(n *ast.CallExpr) (Val, error) {
 			return Val{}, err
 		}
 		if a.T == nil || !isInterface(a.T) {
-			return Val{}, fmt.Errorf("dyn of non-interface")
+			// a value of a non-interface static type: its dynamic type is its static type
+			if a.T != nil {
+				return specVal(intLit(int64(fx.e.tt.id(a.T)))), nil
+			}
+			return specVal("0"), nil
 		}
 		return specVal(a.L[0]), nil
 	case "ref":
